@@ -52,7 +52,7 @@ theorem Pre.respects {ctx : Ctx} {ic isc : List (String × Ty)} (τ : List Ty)
   | constSig n S m hs hst =>
     simp only [Skel.substI, Option.map_some, inst_substI m τ S hst]
     exact .constSig n S _ hs
-  | constDef n D m hd hD =>
+  | constDef n D m _ hd hD =>
     simp only [Skel.substI, Option.map_some, instS_substI m τ D hD]
     exact .constDef n D _ hd
   | comb _ _ ih1 ih2 => exact .comb ih1 ih2
